@@ -74,8 +74,8 @@ theorem budget_cons {snap : Snapshot} {visited : List Nat} {n : Nat} (hn : n ∈
   simp only [List.contains_cons, Bool.not_or]
   rw [Bool.and_comm]
 
-theorem reqs_log_nonreq (st : St) (ds : Datastore) (s : String) :
-    ({ ds := ds, log := .dsCreate s :: st.log } : St).reqs = st.reqs := by
+theorem reqs_log_nonreq (st : St) (ds a : Datastore) (s : String) :
+    ({ ds := ds, log := .dsCreate s a :: st.log } : St).reqs = st.reqs := by
   simp [St.reqs, List.filterMap_cons]
 
 variable {cfg : Config} {srv : Server} {snap : Snapshot} {consistent : Bool}
@@ -128,7 +128,7 @@ theorem fetchRoles_paid (d : Deleg) (roles : List DRole) :
               omega
             · obtain ⟨ih1, ih2⟩ := ih (r.name :: visited)
                 { ds := (st.req (.role r.name (versioned consistent m.version)) (m.length.getD cfg.limits.maxTargetsSize)).ds,
-                  log := .dsCreate "role" :: (st.req (.role r.name (versioned consistent m.version)) (m.length.getD cfg.limits.maxTargetsSize)).log }
+                  log := .dsCreate "role" (st.req (.role r.name (versioned consistent m.version)) (m.length.getD cfg.limits.maxTargetsSize)).ds :: (st.req (.role r.name (versioned consistent m.version)) (m.length.getD cfg.limits.maxTargetsSize)).log }
               split
               · rename_i e st2 hrec
                 rw [hrec] at ih1
